@@ -252,6 +252,12 @@ def r3(R, m):
         lp = loops[0]
         R.check(not any(isinstance(x, (ast.Break, ast.Return)) for x in ast.walk(lp)) and not any(isinstance(x, ast.Continue) for x in ast.walk(lp)),
                 "C16.R3", REL, lp.lineno, name, "whole group visited (no break/continue/return)", "some operators are skipped")
+        cfg = pyfacts.PyCFG(fn)
+        head = cfg.node_of(lp)
+        early = [r for r in ast.walk(fn) if isinstance(r, ast.Return) and not cfg.dominates(head, cfg.node_of(r))]
+        R.check(not early, "C16.R3", REL, early[0].lineno if early else fn.lineno, name, "every return is reached through the loop over the group",
+                "the function can return without enumerating the orbit (early exit before the loop): inputs that satisfy the shortcut are "
+                "returned unreduced, so two members of one orbit reduce to different matrices")
         opc = [c for c in ast.walk(lp) if isinstance(c, ast.Call) and isinstance(c.func, ast.Attribute) and c.func.attr == "op"]
         R.check(len(opc) == 1 and src(opc[0].args[0]) == src(lp.target) and src(opc[0].args[1]) == arg0, "C16.R3", REL, lp.lineno, name,
                 "candidate = op(o, %s)" % arg0, "the operator is applied to something other than the input (e.g. the running best): the orbit is not enumerated")
